@@ -4,6 +4,7 @@
     [TM.Gen.Tables.c19_tables], regenerated from the Python AST on every run. *)
 From Coq Require Import ZArith List Bool.
 From TM Require Import Api.Capacity Api.CapacityP Gen.Tables.
+From TM Require Import Base.ShapeCanon.
 Import ListNotations.
 Open Scope Z_scope.
 
@@ -45,3 +46,10 @@ Example C19_nonvacuous :
   check_capacity c19_tables ex_p ex_allocs 3 {| q_res := ex_r 100 6 5; q_traits := [7] |} = Reject /\
   check_capacity c19_tables ex_p ex_allocs 1 {| q_res := ex_r 100 10 10; q_traits := [7] |} = Accept.
 Proof. vm_compute. repeat split. Qed.
+
+(** the functions named by this property's anchors still have the statement skeleton the model was written from
+    (re-extracted from the Python AST on every run, harness/tables_shape.py + harness/shape_pins.json; kept last so that
+    a difference does not stop the theorems above from being checked) *)
+Theorem C19_source_shape : shapes_ok_C19 = true.
+Proof. vm_compute. reflexivity. Qed.
+Print Assumptions C19_source_shape.
